@@ -157,6 +157,7 @@ func (m *M) opUnmark(t *rapid.T) {
 		}
 		delete(inst.invalid, target)
 	}
+	m.unmarked = append(m.unmarked, target)
 	m.unmarks++
 	m.afterStepFull(true)
 	if resubmit {
@@ -200,16 +201,30 @@ func (m *M) resubmitMarked(target model.Hash) {
 
 func (m *M) opResubmitMarked(t *rapid.T) {
 	inst0 := m.insts[0]
-	if len(inst0.invalid) == 0 {
-		t.Skip("nothing marked")
-	}
-	hs := make([]model.Hash, 0, len(inst0.invalid))
+	// hashes that are marked now, and hashes that were unmarked earlier in this history (possibly
+	// before a Save/Load: the unmarking has to survive it just as the marking does)
+	set := map[model.Hash]bool{}
 	for h := range inst0.invalid {
+		set[h] = true
+	}
+	for _, h := range m.unmarked {
+		set[h] = true
+	}
+	if len(set) == 0 {
+		t.Skip("nothing marked or unmarked yet")
+	}
+	hs := make([]model.Hash, 0, len(set))
+	for h := range set {
 		hs = append(hs, h)
 	}
 	sort.Slice(hs, func(i, j int) bool { return hs[i].String() < hs[j].String() })
 	target := rapid.SampledFrom(hs).Draw(t, "resubmitMarked")
-	m.k.Op("submit marked header")
+	if inst0.invalid[target] {
+		m.k.Op("submit marked header")
+	} else {
+		m.k.Op("submit a header that was unmarked earlier")
+		m.k.Class("resubmit_after_unmark")
+	}
 	m.resubmitMarked(target)
 	// and a child of it
 	if n := m.tree.ByHash[target]; n != nil {
